@@ -12,6 +12,16 @@
 (*           (two driver steps when DriverSteps), Close = Rollback if the   *)
 (*           transaction is still open; a reader's GetLatest needs the      *)
 (*           connection for one atomic step.                                *)
+(*   SqlN  : the SAME code on a pool of several connections to one SQLite   *)
+(*           file (what cmd/omniwitness would run without                   *)
+(*           SetMaxOpenConns(1)): Begin never waits; the SELECT inside the  *)
+(*           transaction takes a SHARED file lock that is kept until the    *)
+(*           transaction ends; Exec needs the RESERVED lock and fails at    *)
+(*           once with SQLITE_BUSY when another transaction holds it;       *)
+(*           Commit needs EXCLUSIVE, i.e. waits until no other transaction  *)
+(*           holds SHARED.  This variant is NOT what ships: it is here so   *)
+(*           that TLC can say which property the single connection buys     *)
+(*           (ErrOnlyOnConflict; see MC_Ops and bin/selftest).              *)
 (*                                                                          *)
 (* Each process runs a program (a sequence of operations).  Fault actions   *)
 (* (C07) replace a call by its failure while a budget lasts; Crash (C06)    *)
@@ -19,7 +29,7 @@
 (***************************************************************************)
 EXTENDS WitnessCore, Json
 
-CONSTANTS Store,        \* "InMem" | "Sql1"
+CONSTANTS Store,        \* "InMem" | "Sql1" | "SqlN"
           Procs,        \* process ids (positive integers)
           Prog,         \* [Procs -> Seq(operation)]
           MaxFaults,    \* budget of injected storage failures
@@ -30,7 +40,8 @@ CONSTANTS Store,        \* "InMem" | "Sql1"
 
 VARIABLES db,      \* committed state [Logs -> CP \cup {None}]
           conn,    \* Sql1: holder of the single connection (0 = free)
-          tx,      \* Sql1: value buffered by Exec and not yet committed
+          tx,      \* Sql1/SqlN: value buffered by Exec and not yet committed
+          lk,      \* SqlN: SQLite file locks [sh |-> transactions holding SHARED, rs |-> holder of RESERVED or 0]
           pc, ip,  \* control state and program counter of each process
           snap,    \* value obtained by the process' read
           dec,     \* decision taken after the read
@@ -38,7 +49,7 @@ VARIABLES db,      \* committed state [Logs -> CP \cup {None}]
           seen,    \* values db[l] held while the current operation was in progress (for the refinement check)
           faults, crashed, acked,
           sched    \* history of scheduling choices (observation; hidden by VIEW in property runs)
-vars == <<db, conn, tx, pc, ip, snap, dec, res, seen, faults, crashed, acked, sched>>
+vars == <<db, conn, tx, lk, pc, ip, snap, dec, res, seen, faults, crashed, acked, sched>>
 
 NoDec == [none |-> TRUE]
 Op(p) == Prog[p][ip[p]]
@@ -46,6 +57,10 @@ HasOp(p) == ip[p] <= Len(Prog[p])
 L(p) == Op(p).log
 Idle(p) == pc[p] \in {"idle", "done"}
 StorageErr == [v |-> "StorageErr", ret |-> "nil"]
+IsSql == Store \in {"Sql1", "SqlN"}
+NoLocks == [sh |-> {}, rs |-> 0]
+Release(p) == [sh |-> lk.sh \ {p}, rs |-> IF lk.rs = p THEN 0 ELSE lk.rs]
+ASSUME Store = "SqlN" => DriverSteps
 
 Step(p, name) == sched' = Append(sched, <<p, name>>)
 
@@ -59,7 +74,7 @@ Invoke(p) ==
     /\ pc' = [pc EXCEPT ![p] = FirstLabel(p)]
     /\ seen' = [seen EXCEPT ![p] = {db[L(p)]}]
     /\ Step(p, "invoke")
-    /\ UNCHANGED <<db, conn, tx, ip, snap, dec, res, faults, crashed, acked>>
+    /\ UNCHANGED <<db, conn, tx, lk, ip, snap, dec, res, faults, crashed, acked>>
 
 \* the operation returns to its caller: the result becomes visible (and, for C06, acknowledged)
 Return(p, r) ==
@@ -77,7 +92,7 @@ WriteOps(p) ==
     /\ pc' = [pc EXCEPT ![p] = "get"]
     /\ seen' = [seen EXCEPT ![p] = IF EagerInvoke THEN {db[L(p)]} ELSE @ \cup {db[L(p)]}]
     /\ Step(p, "WriteOps")
-    /\ UNCHANGED <<db, tx, ip, dec, res, faults, crashed, acked>>
+    /\ UNCHANGED <<db, tx, lk, ip, dec, res, faults, crashed, acked>>
 
 WriteOpsFail(p) ==
     /\ ~crashed /\ pc[p] = "wops" /\ faults < MaxFaults
@@ -86,15 +101,16 @@ WriteOpsFail(p) ==
     /\ seen' = [seen EXCEPT ![p] = IF EagerInvoke THEN {db[L(p)]} ELSE @]
     /\ Return(p, StorageErr)             \* no handle was obtained: nothing to close
     /\ Step(p, "WriteOpsFail")
-    /\ UNCHANGED <<db, conn, tx, snap, dec, crashed>>
+    /\ UNCHANGED <<db, conn, tx, lk, snap, dec, crashed>>
 
 GetLatest(p) ==
     /\ ~crashed /\ pc[p] = "get"
-    /\ LET cur == IF Store = "Sql1" THEN db[L(p)] ELSE snap[p]
+    /\ LET cur == IF IsSql THEN db[L(p)] ELSE snap[p]
            d == Decide(TRUE, cur, Op(p).req)
        IN /\ snap' = [snap EXCEPT ![p] = cur]
           /\ dec' = [dec EXCEPT ![p] = d]
           /\ pc' = [pc EXCEPT ![p] = IF d.write THEN "set" ELSE "close"]
+    /\ lk' = IF Store = "SqlN" THEN [lk EXCEPT !.sh = @ \cup {p}] ELSE lk     \* SHARED, kept until the transaction ends
     /\ Step(p, "GetLatest")
     /\ UNCHANGED <<db, conn, tx, ip, res, seen, faults, crashed, acked>>
 
@@ -105,11 +121,11 @@ GetLatestFail(p) ==
     /\ dec' = [dec EXCEPT ![p] = StorageErr]
     /\ pc' = [pc EXCEPT ![p] = "close"]
     /\ Step(p, "GetLatestFail")
-    /\ UNCHANGED <<db, conn, tx, ip, snap, res, seen, crashed, acked>>
+    /\ UNCHANGED <<db, conn, tx, lk, ip, snap, res, seen, crashed, acked>>
 
 \* InMem: compare-and-set.  Sql1 without driver steps: Exec + Commit in one step.
 Set(p) ==
-    /\ ~crashed /\ pc[p] = "set" /\ ~(Store = "Sql1" /\ DriverSteps)
+    /\ ~crashed /\ pc[p] = "set" /\ ~(IsSql /\ DriverSteps)
     /\ LET d == dec[p]
            ok == Store = "Sql1" \/ db[L(p)] = snap[p]
        IN IF ok
@@ -121,7 +137,7 @@ Set(p) ==
     /\ IF Store = "Sql1" THEN conn' = 0 ELSE UNCHANGED conn   \* Commit releases the connection
     /\ pc' = [pc EXCEPT ![p] = "close"]
     /\ Step(p, "Set")
-    /\ UNCHANGED <<tx, ip, snap, res, faults, crashed, acked>>
+    /\ UNCHANGED <<tx, lk, ip, snap, res, faults, crashed, acked>>
 
 SetFail(p) ==         \* fails before anything is applied
     /\ ~crashed /\ pc[p] = "set" /\ faults < MaxFaults
@@ -129,18 +145,32 @@ SetFail(p) ==         \* fails before anything is applied
     /\ dec' = [dec EXCEPT ![p] = StorageErr]
     /\ pc' = [pc EXCEPT ![p] = "close"]
     /\ Step(p, "SetFail")
-    /\ UNCHANGED <<db, conn, tx, ip, snap, res, seen, crashed, acked>>
+    /\ UNCHANGED <<db, conn, tx, lk, ip, snap, res, seen, crashed, acked>>
 
-\* Sql1 at driver granularity
+\* Sql1 / SqlN at driver granularity
 Exec(p) ==
-    /\ ~crashed /\ pc[p] = "set" /\ Store = "Sql1" /\ DriverSteps
+    /\ ~crashed /\ pc[p] = "set" /\ IsSql /\ DriverSteps
+    /\ (Store = "SqlN" => lk.rs \in {0, p})
+    /\ lk' = IF Store = "SqlN" THEN [lk EXCEPT !.rs = p] ELSE lk          \* RESERVED
     /\ tx' = [tx EXCEPT ![p] = dec[p].new]
     /\ pc' = [pc EXCEPT ![p] = "commit"]
     /\ Step(p, "Exec")
     /\ UNCHANGED <<db, conn, ip, snap, dec, res, seen, faults, crashed, acked>>
 
+\* SqlN: another transaction holds RESERVED while this one holds SHARED: SQLite answers SQLITE_BUSY at once
+\* (waiting would be a deadlock); the statement fails, the transaction stays open until Close rolls it back
+ExecBusy(p) ==
+    /\ ~crashed /\ pc[p] = "set" /\ Store = "SqlN"
+    /\ lk.rs \notin {0, p}
+    /\ dec' = [dec EXCEPT ![p] = StorageErr]
+    /\ pc' = [pc EXCEPT ![p] = "close"]
+    /\ Step(p, "ExecBusy")
+    /\ UNCHANGED <<db, conn, tx, lk, ip, snap, res, seen, faults, crashed, acked>>
+
 Commit(p) ==
     /\ ~crashed /\ pc[p] = "commit"
+    /\ (Store = "SqlN" => lk.sh \ {p} = {})       \* EXCLUSIVE: waits (busy handler) until the other readers are gone
+    /\ lk' = Release(p)
     /\ db' = [db EXCEPT ![L(p)] = tx[p]]
     /\ Observe([db EXCEPT ![L(p)] = tx[p]])
     /\ dec' = [dec EXCEPT ![p] = [v |-> dec[p].v, ret |-> dec[p].ret, val |-> tx[p]]]
@@ -157,6 +187,7 @@ CommitFail(p) ==      \* the driver reports failure and has rolled back
     /\ conn' = 0
     /\ dec' = [dec EXCEPT ![p] = StorageErr]
     /\ pc' = [pc EXCEPT ![p] = "close"]
+    /\ lk' = Release(p)
     /\ Step(p, "CommitFail")
     /\ UNCHANGED <<db, ip, snap, res, seen, crashed, acked>>
 
@@ -165,6 +196,7 @@ Close(p) ==
     /\ conn' = IF conn = p THEN 0 ELSE conn                  \* Rollback if the transaction is still open
     /\ tx' = [tx EXCEPT ![p] = None]
     /\ Return(p, dec[p])
+    /\ lk' = Release(p)
     /\ Step(p, "Close")
     /\ UNCHANGED <<db, snap, dec, seen, faults, crashed>>
 
@@ -175,6 +207,7 @@ CloseFail(p) ==
     /\ conn' = IF conn = p THEN 0 ELSE conn
     /\ tx' = [tx EXCEPT ![p] = None]
     /\ Return(p, dec[p])
+    /\ lk' = Release(p)
     /\ Step(p, "CloseFail")
     /\ UNCHANGED <<db, snap, dec, seen, crashed>>
 
@@ -185,15 +218,15 @@ ReadOps(p) ==
     /\ pc' = [pc EXCEPT ![p] = "rget"]
     /\ seen' = [seen EXCEPT ![p] = IF EagerInvoke THEN {db[L(p)]} ELSE @ \cup {db[L(p)]}]
     /\ Step(p, "ReadOps")
-    /\ UNCHANGED <<db, conn, tx, ip, dec, res, faults, crashed, acked>>
+    /\ UNCHANGED <<db, conn, tx, lk, ip, dec, res, faults, crashed, acked>>
 
 ReadGet(p) ==
     /\ ~crashed /\ pc[p] = "rget"
     /\ (Store = "Sql1" => conn = 0)
-    /\ LET cur == IF Store = "Sql1" THEN db[L(p)] ELSE snap[p]
+    /\ LET cur == IF IsSql THEN db[L(p)] ELSE snap[p]
        IN Return(p, [v |-> "Read", ret |-> "val", val |-> cur])
     /\ Step(p, "GetLatest")
-    /\ UNCHANGED <<db, conn, tx, snap, dec, seen, faults, crashed>>
+    /\ UNCHANGED <<db, conn, tx, lk, snap, dec, seen, faults, crashed>>
 
 \* a reader's GetLatest fails (non-NotFound): the read returns an error, nothing is held afterwards
 ReadGetFail(p) ==
@@ -202,27 +235,27 @@ ReadGetFail(p) ==
     /\ faults' = faults + 1
     /\ Return(p, StorageErr)
     /\ Step(p, "ReadGetFail")
-    /\ UNCHANGED <<db, conn, tx, snap, dec, seen, crashed>>
+    /\ UNCHANGED <<db, conn, tx, lk, snap, dec, seen, crashed>>
 
 \* ---- crash ----------------------------------------------------------------------
 Crash ==
     /\ ~crashed /\ MaxCrash > 0
     /\ \E p \in Procs : ~Idle(p)          \* something is in progress
     /\ crashed' = TRUE
-    /\ conn' = 0 /\ tx' = [p \in Procs |-> None]      \* volatile state is gone, db stays
+    /\ conn' = 0 /\ tx' = [p \in Procs |-> None] /\ lk' = NoLocks     \* volatile state is gone, db stays
     /\ Step(0, "Crash")
     /\ UNCHANGED <<db, pc, ip, snap, dec, res, seen, faults, acked>>
 
 ProcStep(p) ==
     \/ (~EagerInvoke /\ Invoke(p))
     \/ WriteOps(p) \/ WriteOpsFail(p) \/ GetLatest(p) \/ GetLatestFail(p)
-    \/ Set(p) \/ SetFail(p) \/ Exec(p) \/ Commit(p) \/ CommitFail(p) \/ Close(p) \/ CloseFail(p)
+    \/ Set(p) \/ SetFail(p) \/ Exec(p) \/ ExecBusy(p) \/ Commit(p) \/ CommitFail(p) \/ Close(p) \/ CloseFail(p)
     \/ ReadOps(p) \/ ReadGet(p) \/ ReadGetFail(p)
 
 Next == (\E p \in Procs : ProcStep(p)) \/ Crash
 
 \* with EagerInvoke the first operation of every process is pending from the start
-InitE == /\ db = Db0 /\ conn = 0 /\ tx = [p \in Procs |-> None]
+InitE == /\ db = Db0 /\ conn = 0 /\ tx = [p \in Procs |-> None] /\ lk = NoLocks
          /\ ip = [p \in Procs |-> 1]
          /\ pc = [p \in Procs |-> IF ~EagerInvoke \/ Len(Prog[p]) = 0 THEN "idle"
                                   ELSE IF Prog[p][1].kind = "read" THEN "rops" ELSE "wops"]
@@ -261,7 +294,7 @@ ErrOnlyOnConflict ==
           => Cardinality(seen[p] \cup seen'[p]) > 1]_vars
 
 \* C07: whenever no call is in progress, no transaction is open and the connection is free
-NoLeak == (\A p \in Procs : Idle(p) \/ ~HasOp(p) \/ pc[p] \in {"wops", "rops"}) => (conn = 0 /\ \A p \in Procs : tx[p] = None)
+NoLeak == (\A p \in Procs : Idle(p) \/ ~HasOp(p) \/ pc[p] \in {"wops", "rops"}) => (conn = 0 /\ lk = NoLocks /\ \A p \in Procs : tx[p] = None)
 
 \* C07: a failed read of the previous checkpoint never leads to an accept
 NoTofuOnReadError ==
@@ -277,7 +310,7 @@ OldOrNew ==
 
 AllDone == \A p \in Procs : ~HasOp(p)
 Terminal == AllDone \/ crashed
-ViewNoSched == <<db, conn, tx, pc, ip, snap, dec, res, seen, faults, crashed, acked>>
+ViewNoSched == <<db, conn, tx, lk, pc, ip, snap, dec, res, seen, faults, crashed, acked>>
 \* generator: one line per complete behaviour (use without VIEW so that every schedule is a distinct path)
 EmitSched == Terminal => PrintT("SCHED " \o ToJson([sched |-> sched, res |-> res, db |-> db, crashed |-> crashed, acked |-> acked, faults |-> faults]))
 =============================================================================
